@@ -223,6 +223,9 @@ pub enum KeyKind {
     /// weak kinds, for profile violations only
     P192,
     Rsa1024,
+    /// just below the 2048-bit minimum (boundary values)
+    Rsa2047,
+    Rsa2040,
 }
 
 impl KeyKind {
@@ -236,10 +239,12 @@ impl KeyKind {
             KeyKind::Rsa2048 => "rsa2048",
             KeyKind::P192 => "p192",
             KeyKind::Rsa1024 => "rsa1024",
+            KeyKind::Rsa2047 => "rsa2047",
+            KeyKind::Rsa2040 => "rsa2040",
         }
     }
     pub fn from_name(s: &str) -> KeyKind {
-        for k in [KeyKind::P256, KeyKind::P384, KeyKind::P521, KeyKind::Ed25519, KeyKind::Rsa2048, KeyKind::P192, KeyKind::Rsa1024] {
+        for k in [KeyKind::P256, KeyKind::P384, KeyKind::P521, KeyKind::Ed25519, KeyKind::Rsa2048, KeyKind::P192, KeyKind::Rsa1024, KeyKind::Rsa2047, KeyKind::Rsa2040] {
             if k.name() == s {
                 return k;
             }
@@ -253,7 +258,7 @@ impl KeyKind {
             KeyKind::P384 => SigningAlg::Es384,
             KeyKind::P521 => SigningAlg::Es512,
             KeyKind::Ed25519 => SigningAlg::Ed25519,
-            KeyKind::Rsa2048 | KeyKind::Rsa1024 => SigningAlg::Ps256,
+            KeyKind::Rsa2048 | KeyKind::Rsa1024 | KeyKind::Rsa2047 | KeyKind::Rsa2040 => SigningAlg::Ps256,
         }
     }
     /// digest used when a key of this kind signs a certificate / token
@@ -304,13 +309,18 @@ pub fn gen_key(kind: KeyKind, slot: &str) -> Key {
             ok(PKey::from_ec_key(ok(EcKey::generate(&g), "ec keygen")), "ec pkey")
         }
         KeyKind::Ed25519 => ok(PKey::generate_ed25519(), "ed25519 keygen"),
-        KeyKind::Rsa2048 | KeyKind::Rsa1024 => cached_rsa(kind, slot),
+        KeyKind::Rsa2048 | KeyKind::Rsa1024 | KeyKind::Rsa2047 | KeyKind::Rsa2040 => cached_rsa(kind, slot),
     };
     Key { kind, pkey }
 }
 
 fn cached_rsa(kind: KeyKind, slot: &str) -> PKey<Private> {
-    let bits = if kind == KeyKind::Rsa2048 { 2048 } else { 1024 };
+    let bits = match kind {
+        KeyKind::Rsa2048 => 2048,
+        KeyKind::Rsa2047 => 2047,
+        KeyKind::Rsa2040 => 2040,
+        _ => 1024,
+    };
     let slot: String = slot.chars().map(|c| if c.is_ascii_alphanumeric() { c } else { '_' }).collect();
     let path = PathBuf::from(CACHE_DIR).join(format!("rsa{bits}-{slot}.pem"));
     if let Ok(b) = std::fs::read(&path) {
@@ -321,6 +331,9 @@ fn cached_rsa(kind: KeyKind, slot: &str) -> PKey<Private> {
         }
     }
     let k = ok(PKey::from_rsa(ok(Rsa::generate(bits), "rsa keygen")), "rsa pkey");
+    if k.bits() != bits {
+        machinery(format!("pki: generated RSA key has {} bits, wanted {bits}", k.bits()));
+    }
     let _ = std::fs::create_dir_all(CACHE_DIR);
     let tmp = path.with_extension(format!("tmp{}", std::process::id()));
     if std::fs::write(&tmp, ok(k.private_key_to_pem_pkcs8(), "rsa pem")).is_ok() {
@@ -718,7 +731,7 @@ pub fn sign_der_style(key: &Key, digest: Digest, data: &[u8]) -> Vec<u8> {
 pub fn sig_alg_id(key: &Key, digest: Digest) -> Vec<u8> {
     match key.kind {
         KeyKind::Ed25519 => der::seq(&[der::oid("1.3.101.112")]),
-        KeyKind::Rsa2048 | KeyKind::Rsa1024 => {
+        KeyKind::Rsa2048 | KeyKind::Rsa1024 | KeyKind::Rsa2047 | KeyKind::Rsa2040 => {
             let o = match digest {
                 Digest::Sha256 => "1.2.840.113549.1.1.11",
                 Digest::Sha384 => "1.2.840.113549.1.1.12",
@@ -1099,7 +1112,7 @@ impl Tsa {
         let mut signed_attrs_ctx = signed_attrs_set.clone();
         signed_attrs_ctx[0] = 0xA0;
         let sig_alg = match key.kind {
-            KeyKind::Rsa2048 | KeyKind::Rsa1024 => der::seq(&[der::oid("1.2.840.113549.1.1.1"), der::null()]),
+            KeyKind::Rsa2048 | KeyKind::Rsa1024 | KeyKind::Rsa2047 | KeyKind::Rsa2040 => der::seq(&[der::oid("1.2.840.113549.1.1.1"), der::null()]),
             _ => sig_alg_id(key, dg),
         };
         let signer_info = der::seq(&[
